@@ -20,6 +20,11 @@ def main():
         race = rng.random() < 0.5
         late = not race and rng.random() < 0.3
         s = dict(s, in_handler=rng.random() < 0.2)      # a retry started from inside an except block
+        if rng.random() < 0.25:
+            # configuration values are the START event's facets: whatever the keys look like (nested, not identifiers, digits,
+            # Python keywords, empty), the run still begins with START
+            s['config'] = rng.choice([{'opts': {'a-b': 1}}, {'labels': {'k.v': 2, 'class': 3}}, {'0': 1}, {'class': 'x'},
+                                      {'thresholds': {'person/0': 0.5, 'x y': [1, 2]}}, {'m': {'': 1}}, {'__': 2}, {'é-1': {'Ü': None}}])
         obs = cl.run_script(s, with_lineage=True, beats=beats, race=race, slow=race and rng.random() < 0.3, late=late, in_handler=s['in_handler'])
         cl.life_oracle(run, s, obs, {'C18'})
         if not race and not late and rng.random() < 0.25:
